@@ -68,6 +68,7 @@ func Build(p *load.Program) (*World, error) {
 	w := &World{P: p, Inv: map[ai.CellKey]ai.Value{}, paramSyms: map[string]ai.Sym{}, ObjByType: map[string][]*ai.Object{}}
 	w.It = ai.NewInterp(p.SSA, IsRepo)
 	w.It.CollectThresholds(p.Funcs)
+	w.It.PreciseMap = w.lookupTableMaps()
 	w.NewFn = p.Func("gameboy", "New")
 	w.RunFn = p.Func("gameboy", "(*Gameboy).Run")
 	if w.NewFn == nil || w.RunFn == nil {
@@ -909,4 +910,29 @@ func (w *World) materialise() *ai.Heap {
 		st.SetCell(o, key.Path, it.Symbolise(o, key.Path, v))
 	}
 	return st.Freeze()
+}
+
+// lookupTableMaps returns the predicate "maps of this type are only ever filled by package
+// initialisers": such maps are lookup tables and are modelled entry by entry; a map type that any
+// other function updates, or deletes from, stays opaque.
+func (w *World) lookupTableMaps() func(types.Type) bool {
+	mutated := map[string]bool{}
+	for _, fn := range w.P.Funcs {
+		inInit := fn.Name() == "init" || strings.HasPrefix(fn.Name(), "init#") || (fn.Parent() != nil && strings.HasPrefix(fn.Parent().Name(), "init"))
+		for _, b := range fn.Blocks {
+			for _, ins := range b.Instrs {
+				switch x := ins.(type) {
+				case *ssa.MapUpdate:
+					if !inInit {
+						mutated[x.Map.Type().String()] = true
+					}
+				case *ssa.Call:
+					if bi, ok := x.Call.Value.(*ssa.Builtin); ok && bi.Name() == "delete" && len(x.Call.Args) > 0 {
+						mutated[x.Call.Args[0].Type().String()] = true
+					}
+				}
+			}
+		}
+	}
+	return func(t types.Type) bool { return !mutated[t.String()] }
 }
